@@ -17,6 +17,13 @@ NA = {
 
 # property -> check description; filled in as units are built
 CHECKS = {
+    "C12": {
+        "category": "fault_enumeration",
+        "technique": "Kani on the real operations with a ghost descriptor/mapping table in the stub kernel: frame-condition contract over the table, every syscall symbolically failing or succeeding",
+        "text": "Bounded, partial: for 12 fd-creating operations (UnixStream::connect/try_connect, UnixListener::bind/accept/try_accept, TcpListener::bind/accept/try_accept, TcpStream::connect/try_connect incl. the in-progress second stage, OpenOptions::open over all option combinations, File::open, Directory::open, EpollDriver::create, rusl setup_io_uring) one symbolic execution lets each system call of the operation fail with any errno or succeed, i.e. every failure index k at once; the contract is the frame condition on the ghost descriptor (and mapping) table: Err => nothing opened stays open, Ok(v) => exactly v's descriptors, released by drop(v), no double or foreign close.",
+        "note": "Not covered (listed in evidence): File::copy/metadata, openpty, getpwuid_r (constant UnixStr paths: Kani cannot evaluate const fat pointers), Command::spawn (see C13), thread spawn. EINTR retry loops bounded to 7 syscalls per operation. One known finding recorded (setup_io_uring leaks on mmap failure).",
+        "design_ref": "§4.C12",
+    },
     "C07": {
         "category": "model_checking",
         "technique": "bounded Kani harnesses with function-level contracts (byte-string definition of environment lookup, last-pair-wins aux values) on the real start/env code over symbolic memory images",
